@@ -5,6 +5,7 @@ NAME = "yinyang"
 MODULE = "cspuz.puzzle.yinyang"
 FUNC = "solve_yinyang"
 VALUES = [0, 1, 2]
+TIER1 = ("Yinyang", "solve_yinyang_model")
 
 
 def call(mod, pb):
@@ -36,3 +37,35 @@ def tier2(tier, rng):
             yield {"h": h, "w": w, "grid": g}
     for g in L.sample(rng, L.all_grids(2, 2, VALUES), 30 if th else 4):
         yield {"h": 2, "w": 2, "grid": g}
+
+
+T1_VALUES = [0, 1, 2, 3, -1]    # empty, white, black, and two values outside the alphabet (read as empty)
+
+
+def tier1_problems(tier, rng):
+    """program-capture tie: every clue layout of the boards with up to 4 cells (both orientations, 1xN / Nx1 included:
+    the border walk visits cells twice there), samples of all layouts of the boards with 5 and 6 cells, random layouts
+    on larger and non-square boards (1xN, Nx1, 2xN, Nx2, up to 8x8), all-clue boards, boards without cells (ValueError
+    from the connectivity helper) and grids with missing trailing cells (IndexError)"""
+    th = tier == "thorough"
+    for (h, w) in [(1, 1), (1, 2), (2, 1), (1, 3), (3, 1), (2, 2), (1, 4), (4, 1)]:
+        for g in L.all_grids(h, w, VALUES):
+            yield {"h": h, "w": w, "grid": g}
+    for (h, w) in [(1, 1), (1, 2), (2, 1), (1, 3), (3, 1), (2, 2)]:
+        for g in L.sample(rng, L.all_grids(h, w, T1_VALUES), 120 if th else 25):
+            yield {"h": h, "w": w, "grid": g}
+    for (h, w) in [(1, 5), (5, 1), (2, 3), (3, 2), (1, 6), (6, 1)]:
+        for g in L.sample(rng, L.all_grids(h, w, VALUES), 150 if th else 30):
+            yield {"h": h, "w": w, "grid": g}
+    for (h, w) in [(3, 3), (2, 4), (4, 2), (2, 5), (5, 2), (3, 4), (4, 3), (4, 4), (3, 6), (6, 3), (6, 5), (5, 7), (1, 7), (7, 1),
+                   (1, 9), (9, 1), (2, 8), (8, 2), (7, 7), (8, 8)]:
+        for p in [0.3, 0.6, 0.8, 0.95] * (3 if th else 1):
+            yield {"h": h, "w": w, "grid": L.random_grid(rng, h, w, T1_VALUES, p)}
+        yield {"h": h, "w": w, "grid": [[rng.choice([1, 2]) for _ in range(w)] for _ in range(h)]}
+    for (h, w) in [(0, 0), (0, 2), (2, 0)]:
+        yield {"h": h, "w": w, "grid": [[] for _ in range(h)]}
+    for (h, w) in [(1, 1), (2, 2), (2, 3), (3, 2), (4, 4)]:
+        g = L.random_grid(rng, h, w, VALUES, 0.5)
+        yield {"h": h, "w": w, "grid": g[:-1]}                              # the last row is missing
+        yield {"h": h, "w": w, "grid": g[:-1] + [g[-1][:-1]]}               # the last cell is missing
+        yield {"h": h, "w": w, "grid": [[1] * w for _ in range(h - 1)] + [[]]}  # an empty last row after all-clue rows
